@@ -283,3 +283,95 @@ h_parse_mb!(c15_q_hexmb3_f16x1_n2, 8, Bvf<u16, 1>, from_hex, scan_hex, 4, 2, 3, 
 h_parse_mb!(c15_t_hexmb3_f16x1_n3, 9, Bvf<u16, 1>, from_hex, scan_hex, 4, 3, 3, 6, 16);
 h_parse_mb!(c15_t_hexmb3_f16x1_n4, 10, Bvf<u16, 1>, from_hex, scan_hex, 4, 4, 3, 7, 16);
 h_parse_mb!(c15_t_binmb2_bv_n4, 9, Bv, from_binary, scan_bin, 1, 4, 2, 6, NOCAP);
+
+
+// ---- heap implementation: make the character count a syntactic constant ------------------------
+// `Bvd::from_binary/from_hex` allocate `chars().count()` bits. For a string with symbolic bytes
+// the count is a symbolic expression even when its value is forced, and a symbolic allocation
+// size is out of CBMC's reach. The stub below computes the real count, *asserts* that it equals
+// the number of characters the harness built the string with, and returns that constant.
+#[cfg(kani)]
+pub static mut EXPECTED_CHARS: usize = 0;
+#[cfg(kani)]
+pub fn chars_count_model<'a>(it: std::str::Chars<'a>) -> usize
+where
+    'a: 'a,
+{
+    let s = it.as_str().as_bytes();
+    let mut n = 0usize;
+    let mut i = 0;
+    while i < s.len() {
+        if (s[i] as i8) >= -64 {
+            n += 1;
+        }
+        i += 1;
+    }
+    let want = unsafe { EXPECTED_CHARS };
+    assert!(n == want, "HARNESS: the string does not have the number of characters the harness declared");
+    want
+}
+
+macro_rules! h_parse_mb_heap {
+    ($name:ident, $unw:literal, $T:ty, $f:ident, $scan:ident, $bits:literal, $n:literal, $w:literal, $nb:literal, $cap:expr) => {
+        #[cfg_attr(kani, kani::proof)]
+        #[cfg_attr(kani, kani::unwind($unw))]
+        #[cfg_attr(kani, kani::stub(<core::str::Chars as core::iter::Iterator>::count, chars_count_model))]
+        pub fn $name() {
+            #[cfg(kani)]
+            unsafe {
+                EXPECTED_CHARS = $n + 1;
+            }
+            let a = ascii!($n);
+            let p = nd::upto($n);
+            let mb: [u8; 3] = if $w == 2 {
+                [0xC2 + nd::upto(0x1D) as u8, 0x80 + nd::upto(0x3F) as u8, 0]
+            } else {
+                [0xE1 + nd::upto(0x0B) as u8, 0x80 + nd::upto(0x3F) as u8, 0x80 + nd::upto(0x3F) as u8]
+            };
+            let mut b = [0u8; $nb];
+            let mut j = 0;
+            while j < $nb {
+                b[j] = if j < p { a[j] } else if j < p + $w { mb[j - p] } else { a[j - $w] };
+                j += 1;
+            }
+            let sc = $scan(&a[..], $n);
+            let bad = if sc.bad < p { sc.bad } else { p };
+            let s: &str = unsafe { std::str::from_utf8_unchecked(&b[..]) };
+            w!(bad == p, "the multi-byte character is the first offender");
+            let r = <$T>::$f(s);
+            judge!(r, ($n + 1), $bits, $cap, bad, Big::ZERO);
+        }
+    };
+}
+h_parse_mb_heap!(c15_q_binmb2_bvd_n1, 8, Bvd, from_binary, scan_bin, 1, 1, 2, 3, NOCAP);
+h_parse_mb_heap!(c15_q_binmb3_bvd_n2, 9, Bvd, from_binary, scan_bin, 1, 2, 3, 5, NOCAP);
+h_parse_mb_heap!(c15_q_hexmb2_bvd_n2, 8, Bvd, from_hex, scan_hex, 4, 2, 2, 4, NOCAP);
+
+/// ASCII strings on the heap implementations with the character count pinned (see above).
+macro_rules! h_parse_heap {
+    ($name:ident, $unw:literal, $T:ty, $f:ident, $scan:ident, $bits:literal, $n:literal, $cap:expr) => {
+        #[cfg_attr(kani, kani::proof)]
+        #[cfg_attr(kani, kani::unwind($unw))]
+        #[cfg_attr(kani, kani::stub(<core::str::Chars as core::iter::Iterator>::count, chars_count_model))]
+        pub fn $name() {
+            #[cfg(kani)]
+            unsafe {
+                EXPECTED_CHARS = $n;
+            }
+            let b = ascii!($n);
+            let sc = $scan(&b[..], $n);
+            let s: &str = unsafe { std::str::from_utf8_unchecked(&b[..]) };
+            w!(sc.bad == $n, "every character is a digit");
+            w!(sc.bad + 1 == $n, "only the last character offends");
+            w!(sc.bad == 0, "the first character offends");
+            let r = <$T>::$f(s);
+            judge!(r, $n, $bits, $cap, sc.bad, sc.val);
+        }
+    };
+}
+h_parse_heap!(c15_q_bin_bvd_n2, 5, Bvd, from_binary, scan_bin, 1, 2, NOCAP);
+h_parse_heap!(c15_q_bin_bvd_n9, 12, Bvd, from_binary, scan_bin, 1, 9, NOCAP);
+h_parse_heap!(c15_q_hex_bvd_n3, 6, Bvd, from_hex, scan_hex, 4, 3, NOCAP);
+h_parse_heap!(c15_t_hex_bvd_n17, 20, Bvd, from_hex, scan_hex, 4, 17, NOCAP);
+h_parse_heap!(c15_t_bin_bvd_n65, 68, Bvd, from_binary, scan_bin, 1, 65, NOCAP);
+h_parse_heap!(c15_t_hex_bv_n33, 36, Bv, from_hex, scan_hex, 4, 33, NOCAP);
